@@ -60,7 +60,11 @@ Definition clause_C11 (cfg : config) (cl : list client) (o : op) (x : obs) : N :
       let i := cr_id (t_cred r) in
       if andb (no_proof r) (andb (cf_dpop_enabled cfg) (orb (cf_dpop_required cfg) (cflag cl i c_dpop_required))) then 7 else
       if andb (no_cert r) (andb (cf_tls_binding_enabled cfg) (orb (cf_tls_binding_required cfg) (cflag cl i c_tls_required))) then 8 else
-      if andb (cf_binding_required cfg) (andb (no_proof r) (no_cert r)) then 9 else 0
+      if andb (cf_binding_required cfg) (andb (no_proof r) (no_cert r)) then 9 else
+      (* whatever the request carried: under "binding required" the token just issued is bound (its cnf names a
+         key or a certificate) - a proof or certificate of a mechanism that is not enabled binds nothing *)
+      if andb (cf_binding_required cfg)
+              (match x with Out (OTokens t) => andb (is_nil (tr_jkt t)) (is_nil (tr_x5t t)) | _ => false end) then 9 else 0
   | _ => 0
   end.
 
